@@ -288,7 +288,10 @@ TWINS = [
 
 YAML_FUZZ_FIELDS = ["library", "cxx_header", "namespace", "language", "options", "format", "declarations", "typemap",
                     "splicer", "splicer_code", "patterns", "copyright", "setup"]
-WRONG_KINDS = [None, 3, "text", ["a", "b"], {"k": "v"}, True, [{"decl": 3}], [3], {"decl": "x"}]
+YAML_FIELD_KINDS = {"library": str, "cxx_header": str, "namespace": str, "language": str, "options": dict, "format": dict,
+                    "declarations": list, "typemap": list, "splicer": dict, "splicer_code": dict, "patterns": dict,
+                    "copyright": list, "setup": dict}
+WRONG_KINDS = [None, 3, "text", ["a", "b"], {"k": "v"}, True, [{"decl": 3}], [3], {"decl": "x"}, 0, False, "", 0.0]
 
 
 def pipeline_case(name, decls, lang="c++", extra=None, wraps=("c", "fortran", "python")):
@@ -427,6 +430,11 @@ def main(rec):
             d[f] = wk
             sp = gen.spec_for(d, "yaml:%s=%r" % (f, wk))
             sp["what"] = "field %s = %r" % (f, wk)
+            # documented kinds (docs/input.rst): a blank field is the empty value; any value of another kind -- including
+            # 0, false and '' -- is a structure error, never silently taken for empty
+            kind = YAML_FIELD_KINDS.get(f)
+            if kind is not None and wk is not None and not isinstance(wk, kind) or (kind in (dict, list) and isinstance(wk, bool)):
+                sp["must_reject"] = "yaml-field:%s:%s%s" % (f, type(wk).__name__, "" if wk else ":falsy")
             jobs.append((sp, False))
     for key in ["decls", "declaration", "Declarations", "option", "formats", "libary"]:
         d = copy.deepcopy(base)
